@@ -103,7 +103,7 @@ theorem AutoMInv.of_kept {off : Bool} {ext : Nat → Nat} {m m' : Mgr} (h : Auto
    h.mode.transfer k.frame.lastLen (by rw [Mgr.nvars, Mgr.nvars, k.ext.nvars]; exact Nat.le_refl _)⟩
 
 theorem AutoMInv.lite {ext : Nat → Nat} {m : Mgr} (h : AutoMInv true ext m) : Lite ext m :=
-  h.inv.lite h.counts (h.mode.1 rfl)
+  h.inv.lite h.counts (h.mode rfl)
 
 /-- `Kept` for every state with exact counts and reordering not enabled, plus exact counts
 afterwards, is all `CoreKeepsAt true` asks for -/
@@ -112,7 +112,7 @@ theorem keepsAtOff_of {α : Type} {op : M α} {m : Mgr}
     (hl : ∀ ext, Lite ext m → RefExact (op m).2 ext) : CoreKeepsAt true m op := by
   intro ext hm r m' he
   have h2 : (op m).2 = m' := by rw [he]
-  have k := hk ext hm.inv hm.counts (hm.mode.1 rfl)
+  have k := hk ext hm.inv hm.counts (hm.mode rfl)
   have r' := hl ext hm.lite
   rw [h2] at k r'
   exact ⟨hm.of_kept k r', heldExt_of_kept hm.inv k ext⟩
@@ -127,7 +127,7 @@ structure MInvC (ext : Nat → Nat) (m : Mgr) : Prop where
   off : m.lastLen = none
 
 theorem AutoMInv.toC {ext : Nat → Nat} {m : Mgr} (h : AutoMInv true ext m) : MInvC ext m :=
-  ⟨h.inv, h.order, h.counts, h.sched, h.roots, h.mode.1 rfl⟩
+  ⟨h.inv, h.order, h.counts, h.sched, h.roots, h.mode rfl⟩
 
 /-! ### the decorated operations, ARBITRARY arguments, reordering not enabled -/
 
@@ -545,7 +545,7 @@ theorem Good.keeps {α : Type} {x : M α} (h : Good x) : CoreKeeps true x := by
   obtain ⟨a, b, _, c⟩ := h m ext hm.toC
   rw [he] at a b c
   exact ⟨⟨a.inv, a.order, a.counts, by rw [c]; exact hm.ctx, a.sched, a.roots,
-    ⟨fun _ => a.off, fun h => nomatch h⟩⟩, b⟩
+    fun _ => a.off⟩, b⟩
 
 /-- `BDD.cube(dvars)` for ANY names, reordering not enabled -/
 theorem cube_keepsOff (d : List (String × Bool)) : CoreKeeps true (cube d) := (cube_good d).keeps
